@@ -5,6 +5,9 @@ package main
 // Real engine (node toolkit): every block is built through the MINER path (n.Build: ApplyTxs with
 // discards, Finalize, Seal), inserted through the VALIDATOR path (n.Insert) and confirmed by a second
 // deputy, so that it is stable before the next block is built (VerifyAssetTx reads the STABLE state).
+// Some blocks are deliberately left unconfirmed for a while, so that the stable block lags behind the parent
+// (`block <h> <stable height>`).  The model is PINNED to the repaired transfer (no variant probe): a regressed
+// sign check shows up as a correspondence diff AND as oracle failures.
 // The op lines describe each candidate asset transaction; the answer of a `tx` line is the outcome of
 // that tx in the mined block (`ok` = included, `err <name>` = discarded by the miner, the name being
 // found by re-running the real functions on the real pre-state of that tx); the answer of an `end`
@@ -39,6 +42,9 @@ import (
 func init() { subs["c12"] = c12 }
 
 type c12Tx struct {
+	orig  *types.Transaction // pristine copy (a box tx is rewritten in place when it is executed)
+	subs  []*c12Tx           // kind "box"
+	pkeys []string           // kind "modify": the profile keys it writes
 	tx    *types.Transaction
 	line  string // the model's view of the tx
 	kind  string // create | issue | replenish | modify | transfer
@@ -55,6 +61,8 @@ type c12Asset struct {
 	issuer             int
 	cat                uint32
 	div, repl, created bool
+	createdAt          uint32
+	keys               map[string]bool // profile keys the stored record has (harness ground truth)
 }
 
 type c12Entry struct {
@@ -67,6 +75,8 @@ type c12View struct {
 	supply map[int]*big.Int
 	frozen map[int]bool
 	div    map[int]bool
+	repl   map[int]bool
+	cat    map[int]uint32
 	issuer map[int]int
 	eq     map[[2]int]c12Entry
 }
@@ -92,6 +102,11 @@ type c12s struct {
 	taintID   map[int]bool
 	nUsers    int
 	stop      bool
+	nilNext   bool // the next constructor call with receiver 0 builds a tx WITHOUT a To field (the engine then uses the zero address)
+	bigNext   bool // the next create carries a 700-character description: the marshalled asset exceeds MaxMarshalAssetLength
+	clean     bool // episode without any foreign-asset-id input: every oracle failure in it is a NEW defect
+	stableH   uint32
+	unconf    int // blocks built since the last confirmed one
 }
 
 func (s *c12s) hl(h common.Hash) int {
@@ -158,73 +173,52 @@ func c12ErrName(err error) string {
 		return "insufficient"
 	}
 	msg := err.Error()
-	if strings.Contains(msg, "cannot encode negative") {
-		return "rlpNegative"
-	}
-	if strings.Contains(msg, "negative") {
+	if msg == "asset transfer amount can't be negative" { // vm.ErrNegativeAssetAmount (by text: the harness must also build against a tree without it)
 		return "negativeAmount"
 	}
+	if msg == "rlp: cannot encode negative *big.Int" {
+		return "rlpNegative"
+	}
+	// tx data that does not decode: the generated UnmarshalJSON reports a missing required field, hexutil
+	// reports a json.UnmarshalTypeError (syntax / non-string), encoding/json a SyntaxError. Nothing else is `parse`.
 	switch err.(type) {
 	case *json.UnmarshalTypeError, *json.SyntaxError:
 		return "parse"
 	}
-	if strings.Contains(msg, "missing required field") || strings.Contains(msg, "json") || strings.Contains(msg, "hex") || strings.Contains(msg, "invalid") || strings.Contains(msg, "unexpected end") {
+	if strings.HasPrefix(msg, "missing required field") {
 		return "parse"
 	}
 	return "other:" + strings.ReplaceAll(msg, " ", "_")
-}
-
-type c12FakeDB struct{ issuer common.Address }
-
-func (f c12FakeDB) GetAssetCode(code common.Hash) (common.Address, error) { return f.issuer, nil }
-
-// c12Variant asks the real EVM.TransferAssetTx (on a scratch account manager) whether a negative
-// amount is still accepted: "asis" (code before the repair) or "fixed".
-func c12Variant(n *Node) string {
-	am := account.NewManager(n.BC.CurrentBlock().Hash(), n.DB)
-	a, b, issuer := common.HexToAddress("0xa1a1"), common.HexToAddress("0xb1b1"), common.HexToAddress("0xc1c1")
-	code := common.HexToHash("0x7777")
-	if err := am.GetAccount(issuer).SetAssetCode(code, &types.Asset{Category: 1, IsDivisible: true, AssetCode: code, TotalSupply: big.NewInt(10), Issuer: issuer, Profile: types.Profile{}}); err != nil {
-		panic(err)
-	}
-	am.GetAccount(a).SetEquityState(code, &types.AssetEquity{AssetCode: code, AssetId: code, Equity: big.NewInt(5)})
-	am.GetAccount(b).SetEquityState(code, &types.AssetEquity{AssetCode: code, AssetId: code, Equity: big.NewInt(5)})
-	evm := vm.NewEVM(vm.Context{}, am, vm.Config{})
-	data := []byte(fmt.Sprintf(`{"assetId":"%s","transferAmount":"-1"}`, code.Hex()))
-	_, _, err, _ := evm.TransferAssetTx(am.GetAccount(a), b, 100000, data, c12FakeDB{issuer})
-	if err == nil {
-		return "asis"
-	}
-	return "fixed"
 }
 
 // ---- reading the state back ------------------------------------------------------------------
 
 func (s *c12s) view(h common.Hash) *c12View {
 	am := account.NewManager(h, s.n.DB)
-	v := &c12View{supply: map[int]*big.Int{}, frozen: map[int]bool{}, div: map[int]bool{}, issuer: map[int]int{}, eq: map[[2]int]c12Entry{}}
+	v := &c12View{supply: map[int]*big.Int{}, frozen: map[int]bool{}, div: map[int]bool{}, repl: map[int]bool{}, cat: map[int]uint32{}, issuer: map[int]int{}, eq: map[[2]int]c12Entry{}}
+	// every create tx ever offered (whether the harness believes it was included or not) is looked up in its sender's trie
 	for _, as := range s.assets {
-		if !as.created {
-			continue
-		}
 		acc := am.GetAccount(s.addrs[as.issuer])
-		sup, err := acc.GetAssetCodeTotalSupply(s.hashes[as.code])
-		if err != nil {
+		a, err := acc.GetAssetCode(s.hashes[as.code])
+		if err != nil || a == nil {
 			continue
 		}
+		sup, _ := acc.GetAssetCodeTotalSupply(s.hashes[as.code])
 		fz, _ := acc.GetAssetCodeState(s.hashes[as.code], types.AssetFreeze)
-		a, _ := acc.GetAssetCode(s.hashes[as.code])
 		v.supply[as.code] = new(big.Int).Set(sup)
 		v.frozen[as.code] = fz == "true"
 		v.div[as.code] = a.IsDivisible
-		v.issuer[as.code] = s.addrLabel[a.Issuer]
+		v.repl[as.code] = a.IsReplenishable
+		v.cat[as.code] = a.Category
+		il, ok := s.addrLabel[a.Issuer]
+		if !ok {
+			il = 999
+		}
+		v.issuer[as.code] = il
 	}
 	for al, addr := range s.addrs {
 		acc := am.GetAccount(addr)
 		for hlab, hh := range s.hashes {
-			if hlab == 0 {
-				continue
-			}
 			e, err := acc.GetEquityState(hh)
 			if err != nil || e == nil {
 				continue
@@ -252,7 +246,7 @@ func (v *c12View) dump() string {
 		if v.frozen[c] {
 			fz = 1
 		}
-		sb.WriteString(fmt.Sprintf("c%d=%s/%d ", c, v.supply[c].String(), fz))
+		sb.WriteString(fmt.Sprintf("c%d=%s/%d/%d/%d/%d/%d ", c, v.supply[c].String(), fz, v.issuer[c], v.cat[c], b2i(v.div[c]), b2i(v.repl[c])))
 	}
 	sb.WriteString("|")
 	var ks [][2]int
@@ -303,6 +297,24 @@ func (s *c12s) mkRaw(from int, to *common.Address, typ uint16, data string) *typ
 	return mkTx(s.keys[from], to, nil, []byte(data), typ, TxOpt{Exp: s.exp(), Msg: s.msg()})
 }
 
+// mkTo builds a tx with a receiver. After nilNext (receiver 0) it first builds the tx WITHOUT a To field — handleTx would
+// use the zero address, i.e. burn / credit 0x0 — and checks that types.IsToExist (VerifyTxBody, pool AND block verification)
+// refuses it: such a tx can reach neither the pool nor a valid block, so the explicit 0x0 form is offered instead.
+func (s *c12s) mkTo(from, to int, typ uint16, data string) *types.Transaction {
+	if s.nilNext && to == 0 {
+		s.nilNext = false
+		ntx := s.mkRaw(from, nil, typ, data)
+		if e := ntx.VerifyTxBody(nodeChainID, uint64(s.t), true); e != nil {
+			s.c.Count("nil-to:refused-by-VerifyTxBody-for-pool-and-block")
+		} else {
+			s.c.Fail("c12/harness/nil-to-passes-verification", "an asset tx without To passes VerifyTxBody: offer it to the engine", nil)
+		}
+	}
+	s.nilNext = false
+	a := s.addrs[to]
+	return s.mkRaw(from, &a, typ, data)
+}
+
 func b2i(b bool) int {
 	if b {
 		return 1
@@ -316,18 +328,27 @@ func (s *c12s) txCreate(from int, cat uint32, div, repl bool, decimal uint32, fz
 	if fz != "-" {
 		prof[types.AssetFreeze] = fz
 	}
+	big := s.bigNext
+	s.bigNext = false
+	if big {
+		prof[types.AssetDescription] = strings.Repeat("x", 700)
+	}
 	pj, _ := json.Marshal(prof)
 	data := fmt.Sprintf(`{"category":%d,"isDivisible":%v,"decimal":%d,"isReplenishable":%v,"totalSupply":"12345","issuer":"%s","profile":%s}`, cat, div, decimal, repl, s.addrs[(from%s.nUsers)+1].String(), string(pj))
 	tx := s.mkRaw(from, nil, params.CreateAssetTx, data)
 	h := s.hl(tx.Hash())
-	s.assets = append(s.assets, &c12Asset{code: h, issuer: from, cat: cat, div: div, repl: repl})
+	ks := map[string]bool{}
+	for k := range prof {
+		ks[k] = true
+	}
+	s.assets = append(s.assets, &c12Asset{code: h, issuer: from, cat: cat, div: div, repl: repl, keys: ks})
 	return &c12Tx{tx: tx, kind: "create", class: class, from: from, h: h,
-		line: fmt.Sprintf("create %d %d %d %d %d %d %s", from, h, cat, b2i(div), b2i(repl), decimal, fz)}
+		line: fmt.Sprintf("create %d %d %d %d %d %d %s %d", from, h, cat, b2i(div), b2i(repl), decimal, fz, b2i(big))}
 }
 
 func (s *c12s) txIssue(from, to int, code common.Hash, amtTok string, metaLen int, class string) *c12Tx {
 	data := fmt.Sprintf(`{"assetCode":"%s","metaData":"%s"%s}`, code.Hex(), strings.Repeat("m", metaLen), c12AmtJSON("supplyAmount", amtTok))
-	tx := s.mkRaw(from, &s.addrs[to], params.IssueAssetTx, data)
+	tx := s.mkTo(from, to, params.IssueAssetTx, data)
 	x := &c12Tx{tx: tx, kind: "issue", class: class, from: from, to: to, h: s.hl(code), h2: s.hl(tx.Hash())}
 	if ia, err := types.GetIssueAsset(tx.Data()); err == nil {
 		x.amt = ia.Amount
@@ -338,7 +359,7 @@ func (s *c12s) txIssue(from, to int, code common.Hash, amtTok string, metaLen in
 
 func (s *c12s) txReplenish(from, to int, code, id common.Hash, amtTok string, class string) *c12Tx {
 	data := fmt.Sprintf(`{"assetCode":"%s","assetId":"%s"%s}`, code.Hex(), id.Hex(), c12AmtJSON("replenishAmount", amtTok))
-	tx := s.mkRaw(from, &s.addrs[to], params.ReplenishAssetTx, data)
+	tx := s.mkTo(from, to, params.ReplenishAssetTx, data)
 	x := &c12Tx{tx: tx, kind: "replenish", class: class, from: from, to: to, h: s.hl(code), h2: s.hl(id)}
 	if ra, err := types.GetReplenishAsset(tx.Data()); err == nil {
 		x.amt = ra.Amount
@@ -347,24 +368,32 @@ func (s *c12s) txReplenish(from, to int, code, id common.Hash, amtTok string, cl
 	return x
 }
 
-// modify: fz = new value of the freeze key, "-" = the update only touches another key, "none" = empty updateProfile
+// modify: fz = new value of the freeze key, "-" = the update only touches another key, "none" = empty updateProfile,
+// "big" = freeze := "true" together with a 700-character description (the marshalled asset exceeds the limit)
 func (s *c12s) txModify(from int, code common.Hash, fz string, class string) *c12Tx {
 	prof := map[string]string{}
 	switch fz {
 	case "none":
+	case "big":
+		prof[types.AssetFreeze] = "true"
+		prof[types.AssetDescription] = strings.Repeat("y", 700)
 	case "-":
 		prof["description"] = "d" + fmt.Sprint(s.uniq)
 	default:
 		prof[types.AssetFreeze] = fz
 	}
 	tx := txModifyAsset(s.keys[from], code, prof, TxOpt{Exp: s.exp(), Msg: s.msg()})
-	return &c12Tx{tx: tx, kind: "modify", class: class, from: from, h: s.hl(code),
+	var pk []string
+	for k := range prof {
+		pk = append(pk, k)
+	}
+	return &c12Tx{tx: tx, kind: "modify", class: class, from: from, h: s.hl(code), pkeys: pk,
 		line: fmt.Sprintf("modify %d %d %s", from, s.hl(code), fz)}
 }
 
 func (s *c12s) txTransferA(from, to int, id common.Hash, amtTok string, class string) *c12Tx {
 	data := fmt.Sprintf(`{"assetId":"%s"%s}`, id.Hex(), c12AmtJSON("transferAmount", amtTok))
-	tx := s.mkRaw(from, &s.addrs[to], params.TransferAssetTx, data)
+	tx := s.mkTo(from, to, params.TransferAssetTx, data)
 	x := &c12Tx{tx: tx, kind: "transfer", class: class, from: from, to: to, h: s.hl(id)}
 	if ta, err := types.GetTransferAsset(tx.Data()); err == nil {
 		x.amt = ta.Amount
@@ -383,8 +412,132 @@ func cloneTxs(txs types.Transactions) types.Transactions {
 	return out
 }
 
-// diagnose re-runs the real functions on the real pre-state of a discarded tx to name the error.
-func (s *c12s) diagnose(header *types.Header, prefix types.Transactions, tx *types.Transaction) string {
+// introducesKey: a modify that writes a profile key the stored record does not have yet. If such a tx is executed and then
+// REVERTED (oversized update, or a later sub-tx of its box fails), undoAssetCodeState writes the key back with the value ""
+// instead of removing it: the miner's state differs from what validators compute and the miner's block is rejected.
+// That is an engine defect outside C12 (reported, see epilogue); the generators avoid the trigger.
+func (s *c12s) introducesKey(x *c12Tx) bool {
+	if x.kind != "modify" {
+		return false
+	}
+	as := s.asset(x.h)
+	if as == nil {
+		return false
+	}
+	for _, k := range x.pkeys {
+		if !as.keys[k] {
+			return true
+		}
+	}
+	return false
+}
+
+// epilogue: two engine observations that are NOT C12 violations; they are only counted, after the last compared block.
+func (s *c12s) epilogue() {
+	c := s.c
+	if s.stop || s.unconf != 0 {
+		return
+	}
+	Safe(func() string {
+		// (1) a discarded modify that introduced a new profile key leaves the key behind with an empty value
+		var victim *c12Asset
+		for _, as := range s.assets {
+			if as.created && !as.keys[types.AssetDescription] && s.prev.issuer[as.code] == as.issuer {
+				victim = as
+				break
+			}
+		}
+		if victim != nil {
+			bad := s.txModify(victim.issuer, s.hashes[victim.code], "big", "probe")
+			good := txTransfer(s.keys[1], s.addrs[2], lemo(1), TxOpt{Exp: s.exp(), Msg: s.msg()})
+			b, _, err := s.n.Build(s.parent, s.t, types.Transactions{bad.tx, good}, nil)
+			if err == nil {
+				if e := s.n.Insert(CloneBlock(b)); e != nil {
+					c.Count("engine-probe:discarded-modify-with-new-profile-key:honest-block-rejected")
+				} else {
+					c.Count("engine-probe:discarded-modify-with-new-profile-key:block-accepted")
+					s.n.BC.InsertConfirms(b.Height(), b.Hash(), []types.SignData{Confirm(b, s.confirmer(b.MinerAddress()))})
+					s.parent = b
+				}
+				s.t += 3
+			}
+		}
+		// (2) an asset created by a SUB-transaction of a box never enters the store's code -> issuer index
+		cr := s.txCreate(5, 1, true, true, 2, "-", "probe")
+		box := s.txBoxOf(6, []*c12Tx{cr}, "probe")
+		b, _, err := s.n.Build(s.parent, s.t, types.Transactions{box.tx}, nil)
+		if err != nil || len(b.Txs) != 1 {
+			c.Count("engine-probe:box-create:not-included")
+			return ""
+		}
+		if e := s.n.Insert(CloneBlock(b)); e != nil {
+			c.Count("engine-probe:box-create:block-rejected")
+			return ""
+		}
+		s.n.BC.InsertConfirms(b.Height(), b.Hash(), []types.SignData{Confirm(b, s.confirmer(b.MinerAddress()))})
+		s.parent = b
+		for i := 0; i < 400; i++ {
+			if a, err := s.n.DB.GetAssetCode(s.hashes[cr.h]); err == nil && a != (common.Address{}) {
+				c.Count("engine-probe:box-create:indexed")
+				return ""
+			}
+			time.Sleep(time.Millisecond)
+		}
+		if a, _ := account.NewManager(b.Hash(), s.n.DB).GetAccount(s.addrs[5]).GetAssetCode(s.hashes[cr.h]); a != nil {
+			c.Count("engine-probe:box-create:asset-exists-but-never-indexed")
+		}
+		return ""
+	})
+}
+
+// txBoxOf wraps asset txs in a box signed by `from`
+func (s *c12s) txBoxOf(from int, subs []*c12Tx, class string) *c12Tx {
+	var stx types.Transactions
+	for _, x := range subs {
+		stx = append(stx, x.tx)
+	}
+	tx := txBox(s.keys[from], stx, TxOpt{Exp: s.exp(), Msg: s.msg()})
+	return &c12Tx{tx: tx, kind: "box", class: class, from: from, subs: subs, line: fmt.Sprintf("box %d", len(subs))}
+}
+
+func sigKey(tx *types.Transaction) string {
+	if len(tx.Sigs()) == 0 {
+		return ""
+	}
+	return string(tx.Sigs()[0])
+}
+
+// runAsset runs one asset tx through the real VerifyAssetTx + RunAssetEnv / EVM.TransferAssetTx on `am` (no gas, no signatures)
+func (s *c12s) runAsset(proc *transaction.TxProcessor, am *account.Manager, header *types.Header, tx *types.Transaction) error {
+	if err := proc.VerifyAssetTx(tx); err != nil {
+		return err
+	}
+	env := transaction.NewRunAssetEnv(am)
+	var to common.Address
+	if tx.To() != nil {
+		to = *tx.To()
+	}
+	var err error
+	switch tx.Type() {
+	case params.CreateAssetTx:
+		err = env.CreateAssetTx(tx.From(), tx.Data(), tx.Hash())
+	case params.IssueAssetTx:
+		err = env.IssueAssetTx(tx.From(), to, tx.Hash(), tx.Data())
+	case params.ReplenishAssetTx:
+		err = env.ReplenishAssetTx(tx.From(), to, tx.Data())
+	case params.ModifyAssetTx:
+		err = env.ModifyAssetProfileTx(tx.From(), tx.Data())
+	case params.TransferAssetTx:
+		ctx := transaction.NewEVMContext(tx, header, 0, common.Hash{}, parentLoader{s.n})
+		evm := vm.NewEVM(ctx, am, vm.Config{})
+		_, _, err, _ = evm.TransferAssetTx(am.GetAccount(tx.From()), to, tx.GasLimit(), tx.Data(), s.n.DB)
+	}
+	return err
+}
+
+// diagnose re-runs the real functions on the real pre-state of a discarded tx (or box) to name the error, and asks
+// the VALIDATOR entry point (TxProcessor.Process) whether it would accept a block that contains the discarded tx.
+func (s *c12s) diagnose(header *types.Header, prefix, vprefix types.Transactions, x *c12Tx) string {
 	return Safe(func() string {
 		am := account.NewManager(header.ParentHash, s.n.DB)
 		proc := transaction.NewTxProcessor(keyAddr(s.w.FounderKey), nodeChainID, parentLoader{s.n}, am, s.n.DB, s.n.DM)
@@ -392,28 +545,24 @@ func (s *c12s) diagnose(header *types.Header, prefix types.Transactions, tx *typ
 		if len(sel) != len(prefix) {
 			return "diagnose-prefix-mismatch"
 		}
-		if err := proc.VerifyAssetTx(tx); err != nil {
-			return c12ErrName(err)
-		}
-		env := transaction.NewRunAssetEnv(am)
-		var to common.Address
-		if tx.To() != nil {
-			to = *tx.To()
-		}
 		var err error
-		switch tx.Type() {
-		case params.CreateAssetTx:
-			err = env.CreateAssetTx(tx.From(), tx.Data(), tx.Hash())
-		case params.IssueAssetTx:
-			err = env.IssueAssetTx(tx.From(), to, tx.Hash(), tx.Data())
-		case params.ReplenishAssetTx:
-			err = env.ReplenishAssetTx(tx.From(), to, tx.Data())
-		case params.ModifyAssetTx:
-			err = env.ModifyAssetProfileTx(tx.From(), tx.Data())
-		case params.TransferAssetTx:
-			ctx := transaction.NewEVMContext(tx, header, 0, common.Hash{}, parentLoader{s.n})
-			evm := vm.NewEVM(ctx, am, vm.Config{})
-			_, _, err, _ = evm.TransferAssetTx(am.GetAccount(tx.From()), to, tx.GasLimit(), tx.Data(), s.n.DB)
+		if x.kind == "box" {
+			for _, sub := range x.subs {
+				if err = s.runAsset(proc, am, header, sub.orig.Clone()); err != nil {
+					break
+				}
+			}
+		} else {
+			err = s.runAsset(proc, am, header, x.orig.Clone())
+		}
+		// validator path: prefix + the discarded tx must be refused as "invalid transaction in block"
+		am2 := account.NewManager(header.ParentHash, s.n.DB)
+		proc2 := transaction.NewTxProcessor(keyAddr(s.w.FounderKey), nodeChainID, parentLoader{s.n}, am2, s.n.DB, s.n.DM)
+		_, perr := proc2.Process(header, append(cloneTxs(vprefix), x.orig.Clone())) // vprefix: the txs as they stand in the mined block (gasUsed set)
+		if perr == transaction.ErrInvalidTxInBlock {
+			s.c.Count("validator:process-refuses-discarded-tx")
+		} else {
+			s.c.Fail("c12/validator-accepts-discarded-tx", fmt.Sprintf("block %d: the miner path discards `%s` but TxProcessor.Process on the same prefix answers %v", header.Height, x.line, perr), nil)
 		}
 		if err == nil {
 			return "discarded-without-asset-error"
@@ -429,7 +578,7 @@ func (s *c12s) diagnose(header *types.Header, prefix types.Transactions, tx *typ
 func (s *c12s) waitIndex() {
 	lag := false
 	for _, as := range s.assets {
-		if !as.created {
+		if !as.created || as.createdAt > s.stableH {
 			continue
 		}
 		for i := 0; ; i++ {
@@ -458,16 +607,26 @@ func (s *c12s) confirmer(miner common.Address) *ecdsa.PrivateKey {
 	return nil
 }
 
-// runBlock mines, validates, confirms one block of candidate txs and writes its op lines.
-// Returns the outcome per candidate.
-func (s *c12s) runBlock(cands []*c12Tx) []string {
+// runBlock mines, validates and (unless `lag`) confirms one block of candidate txs and writes its op lines.
+// probe (optional): a tx offered to the miner path on the new head BEFORE the asset-code index is waited for; only counted.
+func (s *c12s) runBlock(cands []*c12Tx) []string { return s.runBlockOpt(cands, false, nil) }
+
+func (s *c12s) runBlockOpt(cands []*c12Tx, lag bool, probe *c12Tx) []string {
 	c := s.c
 	outs := make([]string, len(cands))
 	var txs types.Transactions
-	idx := map[common.Hash]int{}
+	idx := map[string]int{}
 	for i, x := range cands {
+		if x.orig == nil {
+			x.orig = x.tx.Clone()
+		}
+		for _, sub := range x.subs {
+			if sub.orig == nil {
+				sub.orig = sub.tx.Clone()
+			}
+		}
 		txs = append(txs, x.tx)
-		idx[x.tx.Hash()] = i
+		idx[sigKey(x.tx)] = i
 		if e := x.tx.VerifyTxBody(nodeChainID, uint64(s.t), false); e != nil {
 			c.Count("pool-verify:rejected:" + x.kind)
 		} else {
@@ -480,45 +639,82 @@ func (s *c12s) runBlock(cands []*c12Tx) []string {
 	}
 	miner := keyAddr(k)
 	header := &types.Header{ParentHash: s.parent.Hash(), MinerAddress: miner, Height: s.parent.Height() + 1, GasLimit: s.parent.GasLimit(), Time: s.t}
+	stableBefore := s.n.BC.StableBlock().Height()
+	if stableBefore != s.stableH {
+		c.Fail("c12/harness/stable-height", fmt.Sprintf("stable block is %d, the harness expected %d", stableBefore, s.stableH), nil)
+		s.stableH = stableBefore
+	}
+	if stableBefore != s.parent.Height() {
+		c.Count("block:stable-lags-behind-parent")
+	}
 	var dump string
 	res, pmsg := SafeMsg(func() string {
-		b, invalid, err := s.n.Build(s.parent, s.t, txs, nil)
+		b, _, err := s.n.Build(s.parent, s.t, txs, nil)
 		if err != nil {
 			return "builderr " + err.Error()
 		}
 		if e := s.n.Insert(CloneBlock(b)); e != nil {
-			c.Fail("c12/honest-block-rejected", fmt.Sprintf("block %d built by the miner path is rejected by the validator path: %v", b.Height(), e), nil)
+			var desc []string
+			inb := map[string]bool{}
+			for _, tx := range b.Txs {
+				inb[sigKey(tx)] = true
+			}
+			for _, x := range cands {
+				st := "discarded"
+				if inb[sigKey(x.tx)] {
+					st = "included"
+				}
+				desc = append(desc, fmt.Sprintf("[%s | %s | %s]", x.line, x.class, st))
+			}
+			c.Fail("c12/honest-block-rejected", fmt.Sprintf("block %d (stable block %d) built by the miner path is rejected by the validator path: %v; candidates: %s", b.Height(), stableBefore, e, strings.Join(desc, " ")), nil)
 			return "rejected"
 		}
 		included := map[int]bool{}
 		for _, tx := range b.Txs {
-			if i, ok := idx[tx.Hash()]; ok {
+			if i, ok := idx[sigKey(tx)]; ok {
 				included[i] = true
 				outs[i] = "ok"
 			}
 		}
-		_ = invalid
 		var prefix types.Transactions
 		for i, x := range cands {
 			if included[i] {
-				prefix = append(prefix, x.tx)
+				prefix = append(prefix, x.orig.Clone())
 				continue
 			}
-			outs[i] = "err " + s.diagnose(header, prefix, x.tx)
+			outs[i] = "err " + s.diagnose(header, prefix, b.Txs[:len(prefix)], x)
 		}
-		s.n.BC.InsertConfirms(b.Height(), b.Hash(), []types.SignData{Confirm(b, s.confirmer(miner))})
-		if st := s.n.BC.StableBlock(); st.Hash() != b.Hash() {
-			c.Fail("c12/harness/not-stable", fmt.Sprintf("block %d did not become stable", b.Height()), nil)
+		if !lag {
+			s.n.BC.InsertConfirms(b.Height(), b.Hash(), []types.SignData{Confirm(b, s.confirmer(miner))})
+			if st := s.n.BC.StableBlock(); st.Hash() != b.Hash() {
+				c.Fail("c12/harness/not-stable", fmt.Sprintf("block %d did not become stable", b.Height()), nil)
+			}
+			s.unconf = 0
+		} else {
+			s.unconf++
+			c.Count("block:left-unconfirmed")
 		}
-		// bookkeeping of the harness' ground truth
+		s.stableH = s.n.BC.StableBlock().Height()
+		// the executed asset txs of this block, boxes flattened
+		var done []*c12Tx
 		for i, x := range cands {
 			if !included[i] {
 				continue
 			}
+			if x.kind == "box" {
+				done = append(done, x.subs...)
+				c.Count("box:included")
+			} else {
+				done = append(done, x)
+			}
+		}
+		// bookkeeping of the harness' ground truth
+		for _, x := range done {
 			switch x.kind {
 			case "create":
 				if as := s.asset(x.h); as != nil {
 					as.created = true
+					as.createdAt = b.Height()
 					if as.cat == types.TokenAsset {
 						s.native[as.code] = as.code
 						if s.taintID[as.code] {
@@ -537,34 +733,63 @@ func (s *c12s) runBlock(cands []*c12Tx) []string {
 					}
 					s.ids = append(s.ids, id)
 				}
+			case "modify":
+				if as := s.asset(x.h); as != nil {
+					for _, k := range x.pkeys {
+						as.keys[k] = true
+					}
+				}
 			case "replenish":
-				if nc, ok := s.native[x.h2]; !ok || nc != x.h {
+				if nc, ok := s.native[x.h2]; (!ok && x.h2 != x.h) || (ok && nc != x.h) {
 					s.taint[x.h] = true
 					s.taintID[x.h2] = true
 					if ok {
 						s.taint[nc] = true
 					}
 					c.Count("oracle:replenish-under-foreign-or-free-id")
+					if s.clean {
+						c.Fail("c12/harness/foreign-id-in-clean-episode", x.line, nil)
+					}
 				}
+			}
+		}
+		if probe != nil {
+			pb, _, perr := s.n.Build(b, s.t+1, types.Transactions{probe.tx}, nil)
+			switch {
+			case perr != nil:
+				c.Count("index-lag-probe:build-error")
+			case len(pb.Txs) == 1:
+				c.Count("index-lag-probe:transfer-included")
+			default:
+				c.Count("index-lag-probe:transfer-discarded-before-index-written")
 			}
 		}
 		s.waitIndex()
 		v := s.view(b.Hash())
-		s.oracles(b, cands, included, v)
+		s.oracles(b, done, v)
 		s.prev = v
 		s.parent = b
 		dump = v.dump()
 		return "ok"
 	})
-	c.Op(fmt.Sprintf("block %d", header.Height), "ok")
+	c.Op(fmt.Sprintf("block %d %d", header.Height, stableBefore), "ok")
 	for i, x := range cands {
 		o := outs[i]
 		if o == "" {
 			o = "err not-run"
 		}
-		c.Op("tx "+x.line, o)
-		c.Count("tx:" + x.kind + ":" + firstWord(strings.TrimPrefix(o, "err ")))
-		c.Count("class:" + x.class + ":" + firstWord(strings.TrimPrefix(o, "err ")))
+		short := firstWord(strings.TrimPrefix(o, "err "))
+		if x.kind == "box" {
+			c.Op(x.line, "ok")
+			for _, sub := range x.subs {
+				c.Op("sub "+sub.line, "ok")
+			}
+			c.Op("boxend", o)
+		} else {
+			c.Op("tx "+x.line, o)
+		}
+		c.Count("tx:" + x.kind + ":" + short)
+		c.Count("class:" + x.class + ":" + short)
 	}
 	if res != "ok" {
 		c.Fail("c12/block-build-failed", res+" "+pmsg, nil)
@@ -596,7 +821,7 @@ func (s *c12s) issueID(x *c12Tx) int {
 	return x.h2
 }
 
-func (s *c12s) oracles(b *types.Block, cands []*c12Tx, included map[int]bool, v *c12View) {
+func (s *c12s) oracles(b *types.Block, done []*c12Tx, v *c12View) {
 	c := s.c
 	p := s.prev
 	if p == nil {
@@ -610,10 +835,7 @@ func (s *c12s) oracles(b *types.Block, cands []*c12Tx, included map[int]bool, v 
 	modified := map[int]bool{}
 	issuedAmt := map[int]*big.Int{} // code -> sum of amounts the issuer issued / replenished in this block
 	burnBy := map[int]bool{}
-	for i, x := range cands {
-		if !included[i] {
-			continue
-		}
+	for _, x := range done {
 		switch x.kind {
 		case "transfer":
 			if s.codeKind[x.to] == 2 {
@@ -726,6 +948,9 @@ func (s *c12s) oracles(b *types.Block, cands []*c12Tx, included map[int]bool, v 
 		if !fz || !v.frozen[code] || modified[code] {
 			continue
 		}
+		if v.supply[code] == nil || p.supply[code] == nil {
+			continue
+		}
 		moved := v.supply[code].Cmp(p.supply[code]) != 0
 		for k, e := range v.eq {
 			if e.code != code {
@@ -797,16 +1022,19 @@ func (s *c12s) oracles(b *types.Block, cands []*c12Tx, included map[int]bool, v 
 
 // ---- the scenario ----------------------------------------------------------------------------
 
-// c12: episodes of at most 150 random blocks, each in a fresh world (the dump of a block reads every known
-// (holder, id) pair, so one long chain would cost quadratic time); every episode starts with the scripted prefix.
+// c12: episodes of at most 75 random blocks, each in a fresh world (the dump of a block reads every known
+// (holder, id) pair, so one long chain would cost quadratic time); every episode starts with a scripted prefix.
+// Episodes ALTERNATE: even ones contain the foreign-asset-id inputs (scripted witnesses + random replenishes under
+// any id) whose failures carry the recorded class /foreign-asset-id; odd ones are CLEAN (no such input at all),
+// so that any oracle failure in them is reported under a class that is not a known finding.
 func c12(c *Ctx) {
 	left := c.N
 	for ep := 0; ; ep++ {
 		nb := left
-		if nb > 150 {
-			nb = 150
+		if nb > 75 {
+			nb = 75
 		}
-		c12Episode(c, nb)
+		c12Episode(c, nb, ep%2 == 1)
 		c.Count("episodes")
 		left -= nb
 		if left <= 0 {
@@ -815,7 +1043,7 @@ func c12(c *Ctx) {
 	}
 }
 
-func c12Episode(c *Ctx, nBlocks int) {
+func c12Episode(c *Ctx, nBlocks int, clean bool) {
 	now := uint32(time.Now().Unix())
 	w := NewWorld(3, now-600000, 10000)
 	n := w.NewNode(3)
@@ -836,8 +1064,6 @@ func c12Episode(c *Ctx, nBlocks int) {
 	}
 	s.parent = n.BC.CurrentBlock()
 	s.t = s.parent.Time() + 1
-	variant := c12Variant(n)
-	c.Count("variant:" + variant)
 
 	// block 1: fund the users; block 2: two contracts (one stops, one reverts)
 	{
@@ -889,11 +1115,23 @@ func c12Episode(c *Ctx, nBlocks int) {
 			}
 		}
 	}
-	c.Op(fmt.Sprintf("init %d %s", len(s.addrs), variant), "ok")
+	// the model is the repaired code; there is no probe of the implementation
+	c.Op(fmt.Sprintf("init %d %d", len(s.addrs), s.parent.Height()), "ok")
+	s.stableH = n.BC.StableBlock().Height()
 	s.prev = s.view(s.parent.Hash())
+	s.clean = clean
+	if clean {
+		c.Count("episodes:clean")
+	} else {
+		c.Count("episodes:with-foreign-asset-id-inputs")
+	}
 
 	s.scripted()
 	for blk := 0; blk < nBlocks && !s.stop; blk++ {
 		s.randomBlock()
+	}
+	s.epilogue()
+	if s.clean && len(s.taint)+len(s.taintID) != 0 {
+		c.Fail("c12/harness/taint-in-clean-episode", "a clean episode must not contain foreign-id inputs", nil)
 	}
 }
